@@ -1473,4 +1473,102 @@ theorem liquidateBorrowV2_seizes (e : Env) (id : Nat) (w : World) (b : Borrow) (
   unfold liquidateBorrowV2 borrowSeized flag
   simp [hf, hl, hkill, hr, hgt, hwl, hd, hpi, hpo, n1, n2]
 
+/-! ### liveness when governance changes the batch size between blocks (any positive sizes) -/
+
+/-- offsets evolve as the code stores them, block `k` running with batch size `bt k` -/
+def EvolvesV (bt : Nat → Nat) (r : Nat → Sw) : Prop :=
+  ∀ k, (r (k+1)).off = (sweepBounds (r k).l.length (r k).off (bt k)).2
+
+/-- number of positions covered by the first `k` blocks of the sweep that starts at block `t` -/
+def covered (bt : Nat → Nat) (t : Nat) : Nat → Nat
+  | 0 => 0
+  | k+1 => covered bt t k + bt (t+k)
+
+theorem covered_mono (bt : Nat → Nat) (t : Nat) {a b : Nat} (h : a ≤ b) : covered bt t a ≤ covered bt t b := by
+  induction b with
+  | zero => have : a = 0 := by omega
+            subst this; exact Nat.le_refl _
+  | succ b ih =>
+    by_cases hab : a = b + 1
+    · subst hab; exact Nat.le_refl _
+    · have := ih (by omega)
+      show covered bt t a ≤ covered bt t b + bt (t+b)
+      omega
+
+theorem covered_ge (bt : Nat → Nat) (hb : ∀ k, 0 < bt k) (t k : Nat) : k ≤ covered bt t k := by
+  induction k with
+  | zero => exact Nat.le_refl _
+  | succ k ih =>
+    show k + 1 ≤ covered bt t k + bt (t+k)
+    have := hb (t+k)
+    omega
+
+/-- the block of the sweep in which index `i` is covered exists and is at most `i` blocks after the start -/
+theorem covered_block_exists (bt : Nat → Nat) (hb : ∀ k, 0 < bt k) (t i : Nat) :
+    ∃ K, K ≤ i ∧ covered bt t K ≤ i ∧ i < covered bt t (K+1) := by
+  have key : ∀ m, i < covered bt t m → ∃ K, K < m ∧ covered bt t K ≤ i ∧ i < covered bt t (K+1) := by
+    intro m
+    induction m with
+    | zero => intro h; exact absurd h (by show ¬ (i < 0); omega)
+    | succ m ih =>
+      intro h
+      by_cases hm : covered bt t m ≤ i
+      · exact ⟨m, by omega, hm, h⟩
+      · obtain ⟨K, hK, h1, h2⟩ := ih (by omega)
+        exact ⟨K, by omega, h1, h2⟩
+  obtain ⟨K, hK, h1, h2⟩ := key (i+1) (by have := covered_ge bt hb t (i+1); omega)
+  exact ⟨K, by omega, h1, h2⟩
+
+theorem marchV (bt : Nat → Nat) (hb : ∀ k, 0 < bt k) (r : Nat → Sw) (hev : EvolvesV bt r) (t i : Nat)
+    (hstart : (r t).starts (bt t) = true) (K : Nat) (hK : covered bt t K ≤ i)
+    (hlen : ∀ k, k ≤ K → i < (r (t+k)).l.length) :
+    ∀ k, k ≤ K → sweepBounds (r (t+k)).l.length (r (t+k)).off (bt (t+k))
+        = (covered bt t k, min (covered bt t k + bt (t+k)) (r (t+k)).l.length) := by
+  intro k
+  induction k with
+  | zero =>
+    intro _
+    have h0 := hlen 0 (by omega)
+    have := starts_bounds (bt t) (hb t) (r t) hstart (by simp at h0; omega)
+    simp only [Nat.add_zero]
+    show _ = (0, min (0 + bt t) _)
+    rw [Nat.zero_add]
+    exact this
+  | succ k ih =>
+    intro hk
+    have ihk := ih (by omega)
+    have hoff : (r (t + (k+1))).off = min (covered bt t k + bt (t+k)) (r (t+k)).l.length := by
+      have := hev (t+k)
+      rw [ihk] at this
+      simpa [Nat.add_assoc] using this
+    have h1 : covered bt t (k+1) ≤ covered bt t K := covered_mono bt t hk
+    have h2 := hlen k (by omega)
+    have h3 := hlen (k+1) hk
+    have hsucc : covered bt t (k+1) = covered bt t k + bt (t+k) := rfl
+    have : (r (t + (k+1))).off = covered bt t (k+1) := by rw [hoff, hsucc]; omega
+    rw [sweepBounds_inside _ _ _ (by omega) (hb _), this]
+
+/-- **Liveness under a changing batch size.** Block `t` starts a sweep; the blocks run with arbitrary positive batch sizes
+`bt`. If `p` stays at index `i` up to the block `t + K` whose range `[covered K, covered (K+1))` contains `i`, it is handed to
+the step in that block — and such a `K ≤ i` always exists (`covered_block_exists`). -/
+theorem sweep_live_varbatch_aux (bt : Nat → Nat) (hb : ∀ k, 0 < bt k) (r : Nat → Sw) (hev : EvolvesV bt r)
+    (t i p K : Nat) (hstart : (r t).starts (bt t) = true)
+    (hK1 : covered bt t K ≤ i) (hK2 : i < covered bt t (K+1))
+    (hpos : ∀ k, k ≤ K → (r (t+k)).l[i]? = some p) :
+    p ∈ (r (t + K)).processed (bt (t+K)) := by
+  have hlen : ∀ k, k ≤ K → i < (r (t+k)).l.length := by
+    intro k hk
+    have := hpos k hk
+    exact (List.getElem?_eq_some_iff.mp this).1
+  have hm := marchV bt hb r hev t i hstart K hK1 hlen K (Nat.le_refl _)
+  unfold Sw.processed
+  simp only
+  rw [hm]
+  simp only
+  apply mem_slice _ _ _ i p (hpos _ (Nat.le_refl _)) hK1
+  have := hlen K (Nat.le_refl _)
+  have h2 : covered bt t (K+1) = covered bt t K + bt (t+K) := rfl
+  omega
+
+
 end Comdex.Liquidation
